@@ -57,7 +57,7 @@ def gfc_post(self, status_codes, context, rendered, result):
 
 
 # ---- ExceptionVisitor.visit (verified from its alias loop on) -----------------------------------------------
-c = contract(f"{V}:ExceptionVisitor.visit", props=["C06", "C01"], start_at_loop=0,
+c = contract(f"{V}:ExceptionVisitor.visit", props=["C06", "C01", "C11"], start_at_loop=0, on_opaque=True,
              types={"error_codes": "list", "all_exception_code": "list", "generated_alias_names": "list"},
              ghost_calls={"render_class": ("rendered", ["class_name", "base_classes"])},
              nothrow_calls=["join", "render_class"])
@@ -73,3 +73,7 @@ def vis_inv(self, error_codes, generated_alias_names, rendered, i):
 @c.ensures
 def vis_post(self, error_codes, rendered, result):
     return rendered == render_spec(error_codes, len(error_codes)) and result[1] == names_spec(error_codes, len(error_codes))
+
+@c.ensures(note="the third component is the list of this spec's error codes (ints)")
+def vis_codes(self, spec, context, result):
+    return is_int_list(result[2])
